@@ -316,7 +316,9 @@ class GHE(BaseGHE):
             # How many times does q need to be repeated?
             n_years = ceil(n_hours / 8760)
             if len(q_dot) // 8760 < n_years:
-                q_dot = q_dot * n_years
+                # repeat the loads over the horizon; a horizon that is not a whole number of years
+                # (or of copies of the list) ends inside the last copy
+                q_dot = (q_dot * n_years)[:n_hours]
             else:
                 n_hours = len(q_dot)
             q_dot = -1.0 * np.array(q_dot)  # Convert loads to rejection
